@@ -550,6 +550,7 @@ class HarnessRT(object):
                     # items this flush skipped are completed with the flush's own error
                     if self.item_done.get(prev.inst) == ("exc", ("Unset",)):
                         self.item_done[prev.inst] = ("exc", d)
+                self.emit("flush_raise", batch.bid)
                 raise e
             self.item_flush[it.inst] = batch.bid
             if mode == "nestedsync":
